@@ -87,9 +87,21 @@ def binCoords (target : List Rat) (demand : List Int) (b : Bin) : List Rat :=
 def binStep (target : List Rat) (demand : List Int) (ret : List Rat) (b : Bin) : List Rat :=
   scatter ret b.cells (binCoords target demand b)
 
-/-- `spreadCoordX/Y(target)` given the bins in loop order -/
-def spreadCoord (nbCells : Nat) (bins : List Bin) (target : List Rat) (demand : List Int) : List Rat :=
-  bins.foldl (binStep target demand) (List.replicate nbCells 0)
+/-- `std::min(std::max(t, areaMin), areaMax)` -/
+def clampTo (areaMin areaMax : Int) (t : Rat) : Rat :=
+  if (areaMax : Rat) < (if t < (areaMin : Rat) then (areaMin : Rat) else t) then (areaMax : Rat)
+  else (if t < (areaMin : Rat) then (areaMin : Rat) else t)
+
+/-- the start value of `ret` in `spreadCoordX/Y`: every cell's target clamped to the placement
+area (cells that are in no bin keep it) -/
+def initCoords (nbCells : Nat) (areaMin areaMax : Int) (target : List Rat) : List Rat :=
+  (List.range nbCells).map fun c => clampTo areaMin areaMax (target.getD c 0)
+
+/-- `spreadCoordX/Y(target)` given the bins in loop order and the extent of `placementArea()`
+on the axis -/
+def spreadCoord (nbCells : Nat) (areaMin areaMax : Int) (bins : List Bin) (target : List Rat)
+    (demand : List Int) : List Rat :=
+  bins.foldl (binStep target demand) (initCoords nbCells areaMin areaMax target)
 
 /-- body of the loops of `simpleCoordX/Y`: `0.5 * (binLimit(i+1) + binLimit(i))` -/
 def simpleStep (ret : List Rat) (b : Bin) : List Rat :=
@@ -120,10 +132,15 @@ def View.binsY (v : View) : List Bin :=
   (List.range v.nbBinsX).flatMap fun i => (List.range v.nbBinsY).map fun j =>
     ⟨v.limY.getD j 0, v.limY.getD (j + 1) 0, v.binCells i j⟩
 
+/-- `placementArea()` seen through the view: the first and the last limit of an axis (every
+view keeps the two outer limits of the grid) -/
+def firstLim (l : List Int) : Int := l.head?.getD 0
+def lastLim (l : List Int) : Int := l.getLast?.getD 0
+
 def spreadCoordX (v : View) (nbCells : Nat) (target : List Rat) (demand : List Int) : List Rat :=
-  spreadCoord nbCells v.binsX target demand
+  spreadCoord nbCells (firstLim v.limX) (lastLim v.limX) v.binsX target demand
 def spreadCoordY (v : View) (nbCells : Nat) (target : List Rat) (demand : List Int) : List Rat :=
-  spreadCoord nbCells v.binsY target demand
+  spreadCoord nbCells (firstLim v.limY) (lastLim v.limY) v.binsY target demand
 def simpleCoordX (v : View) (nbCells : Nat) : List Rat := simpleCoord nbCells v.binsX
 def simpleCoordY (v : View) (nbCells : Nat) : List Rat := simpleCoord nbCells v.binsY
 
